@@ -103,6 +103,9 @@ def run(ctx):
                                          "auth": {"type": "none"}}))
         confs.append(("fsync+mtime", {"storage": {"_filesystem_fsync": "True", "use_mtime_and_size_for_item_cache": "True"},
                                       "auth": {"type": "none"}}))
+    # options that route directory creation / cache placement through other code paths
+    confs.append(("fsync+umask", {"storage": {"_filesystem_fsync": "True", "folder_umask": "0027"}, "auth": {"type": "none"}}))
+    confs.append(("fsync+cachefolder", {"storage": {"_filesystem_fsync": "True", "filesystem_cache_folder": "@tmp"}, "auth": {"type": "none"}}))
     confs.append(("nofsync", {"storage": {"_filesystem_fsync": "False"}, "auth": {"type": "none"}}))
     shapes = [0] if ctx.tier == "quick" else [0, 1, 2]
     try:
